@@ -34,6 +34,7 @@ def check(ctx, replay=None):
     import c01_extra
     ncalls += c01_extra.run(ctx, crate="c10x")
     import c10_extra
+    ncalls += c10_extra.run_nested_options(ctx)
     ncalls += c10_extra.run(ctx, ("c", "cpp"), ("c++17",) if ctx.quick() else ("c++17", "c++20"), goals=goals)
     meta += [("unit-arms-layout", "record of a result whose arms carry no bytes (c10_extra)")] * (len(goals) - len(meta))
     fails = run_shards(PROP, c01.HEADER, goals) if goals else []
